@@ -59,6 +59,8 @@ def jail_tree():
     t['hgself'] = D({'.hg': D({}), '.hgignore': F(data='syntax: glob\n*.o\nsubinclude:/work/hgself/.hgignore\nsubinclude:/work/hgself/.hgignore\n'), 'a.o': F(1), 'b.c': F(2)})
     t['hgpair'] = D({'.hg': D({}), '.hgignore': F(data='subinclude:/work/hgpair/other\nsubinclude:other\n\\.o$\n'),
                      'other': F(data='subinclude:/work/hgpair/.hgignore\nsubinclude:.hgignore\n'), 'a.o': F(1)})
+    # an include that names a directory (it can be opened, every read fails)
+    t['hgdir'] = D({'.hg': D({}), '.hgignore': F(data='syntax: glob\n*.o\nsubinclude:/work/hgdir/sub\n*.c\n'), 'sub': D({'x.o': F(1)}), 'a.o': F(1), 'b.c': F(2), 'k': F(3)})
     return {'work': D(t)}
 
 
@@ -154,7 +156,8 @@ def labelled():
                    'name, ' + nest('1', '+', levels, 998) + ' from . limit 1', 'name, ' + nest('2', '*', levels, 998) + ' from . limit 1',
                    'name from . where size > ' + nest('1', '+', levels, 998), 'name from . order by ' + nest('size', '+', levels, 998) + ' limit 1'):
             out.append(([qy], 'long-input', None))
-    for qy in ('name from /work/hgself hgignore', 'name from /work/hgpair hgignore', 'name from /work/hgself hgignore, /work/hgpair hgignore', 'count(*) from /work hgignore'):
+    for qy in ('name from /work/hgself hgignore', 'name from /work/hgpair hgignore', 'name from /work/hgself hgignore, /work/hgpair hgignore', 'count(*) from /work hgignore',
+               'name from /work/hgdir hgignore', 'name from /work/hgdir/sub hgignore'):
         out.append(([qy], 'ignore-file-cycle', None))
     # numbers at the edge of the machine types inside expressions and aggregates
     for qy in ('sum(size * 0 + 10000000000000000000) from .', 'avg(size * 0 + 10000000000000000000), var_pop(size * 0 + 1e308) from .',
